@@ -186,7 +186,7 @@ HARNESSES = [
             thorough={'n': 3, 'distribution': True, 'closing': 14}, reach=('quiescent',), timeout=(150, 1500),
             doc='two crashes / restarts while a real DISTRIBUTION is pending (real rules, slow supervisords)'),
     Harness('H08c-resync', recovery, quick={'n': 2, 'faults': 1, 'delays': 0, 'failures': ('RESYNC',),
-                                            'configs': ('LIST+TIMEOUT',), 'fences': (False,)},
+                                            'configs': ('LIST', 'LIST+TIMEOUT'), 'fences': (False,)},
             thorough=None, reach=('quiescent',), timeout=(100, 0), doc='same with supvisors_failure_strategy RESYNC'),
     Harness('H08c-delays', recovery, quick=None, thorough={'n': 2, 'faults': 1, 'delays': 1}, reach=('quiescent',),
             timeout=(0, 1800), doc='same with one held task'),
